@@ -557,6 +557,10 @@ class C09(PropCheck):
 
     def stats(self, cases, reals):
         d = {"trees": len(cases), "root_stack": 0, "root_gcm": 0, "exiting": 0, "ops_total": 0, "by_op": {}}
+        d["histories"] = sum(c.get("k") == "hist" for c in cases)
+        d["histories_unwinding"] = sum(c.get("k") == "hist" and bool(c.get("unwind")) for c in cases)
+        d["history_events"] = sum(len(c.get("_evs", [])) for c in cases if c.get("k") == "hist")
+        d["history_pop_all"] = sum(sum(e[0] == "pop_all" for e in c["evs"]) for c in cases if c.get("k") == "hist")
         for c in cases:
             n = c["node"]
             d["root_stack"] += n["kind"] == "stack"
